@@ -55,10 +55,11 @@ deriving DecidableEq, Repr, Inhabited
 def fnv64 (p : B) : UInt64 :=
   p.foldl (fun h b => (h ^^^ b.toUInt64) * 1099511628211) 14695981039346656037
 
-/-- `recordToRow` + `normalizeMessageRow`: the hash is filled only for a non-empty payload -/
+/-- `recordToRow` + `normalizeMessageRow`: the unset hash is filled with FNV-64a of the payload
+    (also for an empty payload, since the repair of the empty-payload defect) -/
 def mkRow (seq : Nat) (r : Rec) : Row :=
   { seq := seq, id := r.id, frm := r.frm, cmn := r.cmn, payload := r.payload, ts := r.ts,
-    hash := if r.payload.isEmpty then 0 else (fnv64 r.payload).toNat }
+    hash := (fnv64 r.payload).toNat }
 
 /-- `validateMaterializedMessageRow` -/
 def rowCheck (r : Row) : Except Err Unit :=
